@@ -151,7 +151,7 @@ def canonical_mark_subsets(O, parent, rnd, kmax=2):
     for n in names[: rnd.randint(0, kmax)]:
         attrs = {}
         for k, spec in O.marks[n].attrs.items():
-            attrs[k] = rnd.choice(["foo", "bar"]) if "default" not in spec else rnd.choice([spec["default"], "z"])
+            attrs[k] = rnd.choice(["foo", "bar", ""]) if "default" not in spec else rnd.choice([spec["default"], "z", ""])
         cur = O.spec_add((n, orc.canon_json(attrs)), cur)
     return cur
 
@@ -171,7 +171,7 @@ def rand_node(S, O, name, rnd, depth=0, marks=(), max_depth=4, width=3):
         if "default" in spec:
             attrs[k] = spec["default"] if rnd.random() < 0.6 else rnd.choice([2, "alt", 3])
         else:
-            attrs[k] = rnd.choice(["x.png", "y.png"])
+            attrs[k] = rnd.choice(["x.png", "y.png", ""])
     if nt.is_leaf:
         return mk_node(S, name, [], attrs, real_marks)
     # random walk over the derivative automaton, biased to stop when accepting
